@@ -310,7 +310,22 @@ func cliCheckC10(sc cliMScenario, r cliMResult) (string, string) {
 				aloneOnXid = false
 			}
 		}
-		if singleton && !anyGated && aloneOnXid && c.outcome != "inuse" {
+		// the groups before the call may race (a burst to an earlier call, ...): without a
+		// blocked matcher everything they started has run to quiescence - the socket queue
+		// is empty, the loop idle - when the call's own group begins
+		singletonSinceCall := true
+		for g := c.callGroup; g < len(sc.groups) && g >= 0; g++ {
+			if len(sc.groups[g]) > 1 {
+				singletonSinceCall = false
+			}
+		}
+		xidFreeAtCall := true
+		for j, o := range r.calls {
+			if j != i && o.called && sc.callers[j].xid == mc.xid && !(o.returned && o.retGroup < c.callGroup) && o.callGroup <= c.retGroup {
+				xidFreeAtCall = false
+			}
+		}
+		if (singleton && aloneOnXid || singletonSinceCall && xidFreeAtCall) && !anyGated && c.outcome != "inuse" {
 			for _, e := range r.injected {
 				if e.group > c.callGroup && e.group <= c.retGroup && e.ok && e.xid == mc.xid && (mc.matchNil || e.tag == 1) {
 					if c.outcome != fmt.Sprintf("resp%d", e.idx) || c.retGroup != e.group {
